@@ -64,8 +64,8 @@ def confint(obs, pred, jac, hess=None, *, conflevel=0.95):
     # covariance matrix
     if hess is not None:
         # hessian of MLE
-        Hmle = np.einsum("...nqp,...y->...pq", hess.conj(), res).real
-        Hmle += np.einsum("...np,...nq->...pq", jac.conj(), jac).real
+        Hmle = np.einsum("...np,...nq->...pq", jac.conj(), jac).real
+        Hmle -= np.einsum("...nqp,...n->...pq", hess.conj(), res).real
         cov = np.linalg.inv(Hmle)
     else:
         jac2 = np.einsum("...np,...nq->...pq", jac.conj(), jac).real
